@@ -416,6 +416,25 @@ func init() {
 				judgeV5(c, sc, o, false)
 				jp.AccumulatedCopySizeLimit = saved
 			}},
+			{Name: "v5-options-value-reused", Count: n(6000, 120000), Run: func(c *core.Ctx, idx int) {
+				// one *ApplyOptions value passed to four calls in a row (limits set on it before each call):
+				// what an earlier call did - in particular one that failed after some copies - must not count
+				reuseOpts = jp.NewApplyOptions()
+				defer func() { reuseOpts = nil }()
+				for k := 0; k < 4; k++ {
+					esc := c.R.Intn(2) == 0
+					sc := c12Seq(c, esc, false)
+					if k%2 == 0 {
+						// likely to fail part-way: a failing operation appended after the copies
+						sc.Ops = append(sc.Ops, ref.Op{Kind: "test", Path: "/zz/nope", Value: mustParse("1"), HasValue: true})
+						sc.OpTexts = append(sc.OpTexts, OpText("test", "/zz/nope", "", "1", true))
+					}
+					o := V5Opts{NegIdx: true, EscapeHTML: esc}
+					o.Limit = chooseLimit(c, evalWithLimit(sc, o))
+					judgeV5(c, sc, o, false)
+				}
+				c.Count("options-value-reused:sequences")
+			}},
 			{Name: "v5-package-default", Count: n(10000, 200000), Run: func(c *core.Ctx, idx int) {
 				sc := c12Seq(c, true, false)
 				o := V5Opts{NegIdx: true, EscapeHTML: true}
